@@ -228,16 +228,53 @@ func (ex *Exec) baseEnv(fr *Frame, st *State) *Env {
 	return env
 }
 
+const unrollBound = 4
+
 // loopHeader handles arrival at loop header h. Returns true when the path ends here.
 func (ex *Exec) loopHeader(fr *Frame, h *ssa.BasicBlock, ord int, st *State, phiVals map[*ssa.Phi]Value, k retK) bool {
 	var spec *LoopSpec
 	if c := ex.specs.Contracts[fnKeyOf(fr.fn)]; c != nil {
-		spec = c.Loops[ord]
+		if so, ok := ex.matchLoops(fr.fn, c).specOf[ord]; ok {
+			spec = c.Loops[so]
+			ord = so // obligations are named after the specification block
+		}
+	}
+	fk := fnKeyOf(fr.fn)
+	if spec == nil && ex.con != nil && ex.recording == nil {
+		// A loop the contracts say nothing about (new code): no invariant to check it against.
+		// It is unrolled up to unrollBound iterations and longer runs are cut - a bounded
+		// stand-in, reported as such and never counted as a proof. Refutations found within the
+		// bound are real paths of the code.
+		li := loopsOf(fr.fn)
+		lc, active := fr.loops[h]
+		back := active && lc.unroll && fr.prev != nil && li.body[h][fr.prev]
+		next := &loopCtx{unroll: true}
+		if back {
+			if lc.iter >= unrollBound {
+				if ex.bounded == nil {
+					ex.bounded = map[string]int{}
+				}
+				ex.bounded[fmt.Sprintf("%s loop %d", fk, ord)] = unrollBound
+				return true
+			}
+			next.iter = lc.iter + 1
+		}
+		fr.loops[h] = next
+		for p, v := range phiVals {
+			v.T = p.Type()
+			fr.vals[p] = v
+		}
+		if ex.bounded == nil {
+			ex.bounded = map[string]int{}
+		}
+		if _, seen := ex.bounded[fmt.Sprintf("%s loop %d", fk, ord)]; !seen {
+			ex.bounded[fmt.Sprintf("%s loop %d", fk, ord)] = 0
+		}
+		return false
 	}
 	if spec == nil {
 		spec = &LoopSpec{}
 	}
-	fk := fnKeyOf(fr.fn)
 	if lc, active := fr.loops[h]; active {
 		// back edge: invariant preservation and measure
 		if ex.recording != nil {
@@ -489,6 +526,7 @@ type FuncReport struct {
 	Inlined     []string
 	Paths       int
 	NoDecreases []string
+	Bounded     map[string]int
 	Returns     int
 	Skipped     string
 	Dependency  bool // verified because a function of the property relies on its contract
@@ -510,6 +548,7 @@ func (ex *Exec) verifyFunction(fn *ssa.Function) (rep *FuncReport) {
 	ex.clauseHit = map[string]bool{}
 	ex.coverN = map[string]int{}
 	ex.noDecreases = nil
+	ex.bounded = nil
 	ex.retCount = 0
 	ex.iterMaps = map[*Cell]Value{}
 	ex.named = map[string]*Term{}
@@ -554,6 +593,7 @@ func (ex *Exec) verifyFunction(fn *ssa.Function) (rep *FuncReport) {
 		rep.Inlined = sortedKeys(ex.inlined)
 		rep.Paths = ex.paths
 		rep.NoDecreases = ex.noDecreases
+		rep.Bounded = ex.bounded
 		rep.Returns = ex.retCount
 	}()
 	c := ex.con
@@ -614,6 +654,9 @@ func (ex *Exec) verifyFunction(fn *ssa.Function) (rep *FuncReport) {
 	// run
 	fr := &Frame{fn: fn, vals: map[ssa.Value]Value{}, args: args, bindings: bindings, loops: map[*ssa.BasicBlock]*loopCtx{}, top: true, ghostPar: fr0.ghostPar, callStack: []string{key}}
 	ex.topFr = fr
+	if c != nil {
+		ex.matchLoops(fn, c) // also records loop blocks whose loop no longer exists
+	}
 	ex.tryPath(func() {
 		ex.execBlock(fr, fn.Blocks[0], st, func(st *State, res Value) {
 			ex.atReturn(fr, c, st, res)
@@ -791,7 +834,7 @@ func (ex *Exec) frameTerms(st *State, ms *ModSet, names []string) []frameTerm {
 			out = append(out, frameTerm{name, Implies(hyp, Eq(Select(cur, w), Select(old, w)))})
 		case strings.HasPrefix(d, "G:"):
 			name := d[2:]
-			if ms.Ghost[name] {
+			if ms.Ghost[name] || ex.specs.Unframed[name] {
 				continue
 			}
 			cur, ok := st.Ghost[name]
